@@ -68,3 +68,44 @@ impl std::fmt::Display for Elapsed {
     }
 }
 impl std::error::Error for Elapsed {}
+
+
+/// tokio::time::Instant on the virtual clock
+#[derive(Clone, Copy, Debug, PartialEq, Eq, PartialOrd, Ord, Hash)]
+pub struct Instant(u64);
+
+impl Instant {
+    pub fn now() -> Instant {
+        Instant(simkit::now_ns())
+    }
+    pub fn elapsed(&self) -> Duration {
+        Duration::from_nanos(simkit::now_ns().saturating_sub(self.0))
+    }
+    pub fn duration_since(&self, earlier: Instant) -> Duration {
+        Duration::from_nanos(self.0.saturating_sub(earlier.0))
+    }
+    pub fn saturating_duration_since(&self, earlier: Instant) -> Duration {
+        self.duration_since(earlier)
+    }
+    pub fn checked_add(&self, d: Duration) -> Option<Instant> {
+        self.0.checked_add(d.as_nanos().min(u64::MAX as u128) as u64).map(Instant)
+    }
+}
+
+impl std::ops::Add<Duration> for Instant {
+    type Output = Instant;
+    fn add(self, d: Duration) -> Instant {
+        Instant(self.0.saturating_add(d.as_nanos().min(u64::MAX as u128) as u64))
+    }
+}
+impl std::ops::Sub<Instant> for Instant {
+    type Output = Duration;
+    fn sub(self, o: Instant) -> Duration {
+        self.duration_since(o)
+    }
+}
+
+pub fn sleep_until(deadline: Instant) -> Sleep {
+    let now = simkit::now_ns();
+    sleep(Duration::from_nanos(deadline.0.saturating_sub(now)))
+}
